@@ -13,9 +13,11 @@ RULE = ('cases = {fast_matvec (python backend), dmrg_hadamard, amen_mv, amen_mm}
         'user initial guess of arbitrary rank (random, or the exact product truncated at 30/10/2 percent: coarse but stationary), real and (DMRG routines) complex; a few exhausted budgets nswp=1,2 judged for acceptance/shape/finiteness only; every structural case is repeated over k internal seeds (quick k=3, thorough k=12) - the library '
         'draws its random initial guess / enrichment from the torch global RNG, which the harness seeds per execution. Oracle: result kind/shape; '
         '||D(y)-ref|| <= 10*eps*||ref|| + 1e3*u*S_rep with ref the dense product. distinct = (routine, structure, eps decade, guess, dtype, seed index); non-trivial = non-zero reference.')
+from ..hist import RULE_SUFFIX as _RS
+RULE = RULE + _RS
 ASSUMPTIONS = ['"a small constant times eps" is fixed a priori as 10*eps', 'C++ backend off here (use_cpp=False); C17 covers it', 'amen_mv/amen_mm are exercised with real dtypes (their inner products are not conjugated)']
 REQUIRED_REACH = ['_dmrg:dmrg_matvec_python', '_dmrg:dmrg_hadamard_python', '_amen:_amen_mm_python', '_amen:amen_mv', '_amen:amen_mm', '_tt_base:TT.fast_matvec']
-REQUIRED_COUNTS = {'routine:fast_matvec': 1, 'routine:dmrg_hadamard': 1, 'routine:amen_mv': 1, 'routine:amen_mm': 1, 'guess:user': 1, 'guess:coarse': 10, 'budget:nswp=1': 1, 'budget:nswp=2': 1, 'order:1': 1, 'order:2': 1, 'executions': 300}
+REQUIRED_COUNTS = {'history_value_checks': 100, 'routine:fast_matvec': 1, 'routine:dmrg_hadamard': 1, 'routine:amen_mv': 1, 'routine:amen_mm': 1, 'guess:user': 1, 'guess:coarse': 10, 'budget:nswp=1': 1, 'budget:nswp=2': 1, 'order:1': 1, 'order:2': 1, 'executions': 300}
 LINE_FUNCS = ['dmrg_matvec_python', 'dmrg_hadamard_python', '_amen_mm_python']
 CASE_TIMEOUT = {'quick': 180, 'thorough': 400}
 MAX_TIMEOUT_FRACTION = 0.0
@@ -89,6 +91,8 @@ def cases(tier, seed):
         cs.append({'gen': 'prod', 'routine': routine, 'M': M, 'N': N, 'K': [rng.randint(1, 3) for _ in range(d)], 'RA': gens.rank_profile(rng, d, 'rand', 4), 'RB': gens.rank_profile(rng, d, 'rand', 4),
                    'vals': 'gauss', 'eps': 10 ** rng.uniform(-10, -3), 'guess': ['none', 'user'][(i // 4) % 2], 'dtype': 'c128' if (routine in ('fast_matvec', 'dmrg_hadamard') and i % 3 == 2) else 'f64',
                    'vseed': rng.randrange(2 ** 40), 'RG': gens.rank_profile(rng, d, 'rand', 3), 'sidx': 0, 'scale': 1.0, 'nswp': 1 + (i // 8) % 2})
+    from .. import hist
+    cs += [dict(c, dtype=['f64', 'c128'][k % 2]) for k, c in enumerate(hist.cases(PROP, tier, seed))]
     return cs
 
 
@@ -111,6 +115,9 @@ def mk(case, g, N, R, M=None, vals=None):
 
 def run_case(case, ctx):
     import torchtt
+    if case['gen'] == 'hist':
+        from .. import hist
+        return hist.run(PROP, case, ctx)
     g = gens.tgen(case['vseed'])
     dt = dn.dtype_of(case['dtype'])
     routine, M, N, K, eps = case['routine'], case['M'], case['N'], case['K'], case['eps']
